@@ -137,7 +137,7 @@ func runRecordLevel(c *core.Ctx) {
 				viol("record-hook:"+cc, err.Error(), nil)
 				return
 			}
-			zr, _ := zHalf(cl, keys, true, 0)       // reads what zw wrote
+			zr, _ := zHalf(cl, keys, true, 0)                                       // reads what zw wrote
 			refR, _ := newRefState(cl.Ref, cl.Version, keys.mac, keys.key, keys.iv) // reads what zw wrote
 			refW, _ := newRefState(cl.Ref, cl.Version, keys.mac, keys.key, keys.iv) // writes for zr2
 			zr2, _ := zHalf(cl, keys, true, 0)
